@@ -9,6 +9,7 @@
 //	          fed to verifiable.ValidateCredentialStatus through a stub resolver registry
 //	registry  Register/Delete histories on the default and on a caller-given registry
 //	http      verifiable.IssuerResolver.Resolve against a stub http.RoundTripper
+//	e2e       ValidateCredentialStatus -> registry -> IssuerResolver -> stub transport (real JSON)
 //	coerce    coerceCredentialStatus on the Go shapes
 //	hex       merkletree.NewHashFromHex spellings (validates the model's hexf abstraction)
 //
@@ -27,6 +28,7 @@ import (
 	"math/rand"
 	"net/http"
 	"path/filepath"
+	"reflect"
 	"strings"
 
 	"github.com/iden3/go-iden3-crypto/constants"
@@ -136,14 +138,42 @@ func (a *Ans) toStatus() (rs verifiable.RevocationStatus, err error) {
 	return rs, nil
 }
 
+// json writes the answer the way an issuer node (or an attacker) would put it on the wire;
+// hand-written so that answers the library refuses to marshal (241 siblings) can be sent.
+func (a *Ans) json() []byte {
+	issuer := map[string]any{}
+	if a.State != nil {
+		issuer["state"] = *a.State
+	}
+	if a.Ctr != nil {
+		issuer["claimsTreeRoot"] = *a.Ctr
+	}
+	if a.Rtr != nil {
+		issuer["revocationTreeRoot"] = *a.Rtr
+	}
+	if a.Ror != nil {
+		issuer["rootOfRoots"] = *a.Ror
+	}
+	mtp := map[string]any{"existence": a.Ex, "siblings": append([]string{}, a.Sibs...)}
+	if a.Aux != nil {
+		aux := map[string]any{}
+		if a.Aux.Key != nil {
+			aux["key"] = *a.Aux.Key
+		}
+		if a.Aux.Value != nil {
+			aux["value"] = *a.Aux.Value
+		}
+		mtp["node_aux"] = aux
+	}
+	b, _ := json.Marshal(map[string]any{"issuer": issuer, "mtp": mtp})
+	return b
+}
+
 // fromStatus projects a Go RevocationStatus (e.g. decoded from JSON) to an Ans.
 func fromStatus(rs *verifiable.RevocationStatus) *Ans {
 	a := &Ans{State: rs.Issuer.State, Ctr: rs.Issuer.ClaimsTreeRoot,
 		Rtr: rs.Issuer.RevocationTreeRoot, Ror: rs.Issuer.RootOfRoots, Ex: rs.MTP.Existence}
-	a.Sibs = []string{}
-	for _, s := range rs.MTP.AllSiblings() {
-		a.Sibs = append(a.Sibs, s.BigInt().String())
-	}
+	a.Sibs = allSiblings(&rs.MTP)
 	if rs.MTP.NodeAux != nil {
 		a.Aux = &Aux{}
 		if rs.MTP.NodeAux.Key != nil {
@@ -154,6 +184,37 @@ func fromStatus(rs *verifiable.RevocationStatus) *Ans {
 		}
 	}
 	return a
+}
+
+// allSiblings is Proof.AllSiblings() without its panic on proofs deeper than 240 levels
+// (which JSON can carry): the unexported members depth / notempties / siblings are read
+// through reflection (read-only).
+func allSiblings(p *merkletree.Proof) []string {
+	v := reflect.ValueOf(p).Elem()
+	depth := int(v.FieldByName("depth").Uint())
+	ne := v.FieldByName("notempties")
+	sibs := v.FieldByName("siblings")
+	out := []string{}
+	idx := 0
+	for lvl := 0; lvl < depth; lvl++ {
+		set := false
+		if lvl/8 < ne.Len() {
+			// TestBitBigEndian(bitmap, n) = bitmap[len-n/8-1] & (1 << (n%8))
+			set = ne.Index(ne.Len()-lvl/8-1).Uint()&(1<<(uint(lvl)%8)) != 0
+		}
+		if !set || idx >= sibs.Len() {
+			out = append(out, "0")
+			continue
+		}
+		h := sibs.Index(idx).Elem()
+		idx++
+		b := make([]byte, h.Len())
+		for i := range b {
+			b[h.Len()-1-i] = byte(h.Index(i).Uint())
+		}
+		out = append(out, new(big.Int).SetBytes(b).String())
+	}
+	return out
 }
 
 // hexf classification with the library's own primitive NewHashFromHex
@@ -239,7 +300,7 @@ type Input struct {
 	MustReject bool      `json:"must_reject,omitempty"`  // the fault changes a value the check depends on
 	SameAs     int       `json:"same_as,omitempty"`      // 1 + class of the honest answer when the edit is benign
 	// other streams
-	HTTP   *HTTPIn   `json:"http,omitempty"`
+	HTTP   *HTTPIn   `json:"http,omitempty"` // also the transport of an e2e case
 	Coerce *CoerceIn `json:"coerce,omitempty"`
 	Hex    string    `json:"hex,omitempty"`
 }
@@ -1389,7 +1450,9 @@ func (g *gen) httpStream() error {
 	wellformed := []string{"null", "{}", `{"issuer":{},"mtp":{}}`, `{"issuer":{"state":"zz"},"mtp":{"existence":true}}`,
 		`{"mtp":{"existence":false,"siblings":[],"node_aux":{}}}`, `{"mtp":{"existence":false,"node_aux":{"key":"1"}}}`,
 		`{"ISSUER":{"STATE":"` + strings.Repeat("00", 32) + `"},"unknown":[1,2,3]}`,
-		`{"mtp":{"existence":false,"siblings":["-5"]}}`, " \n\t{} \n"}
+		`{"mtp":{"existence":false,"siblings":["-5"]}}`, " \n\t{} \n",
+		`{"mtp":{"existence":false,"siblings":[` + strings.Repeat(`"0",`, 240) + `"0"]}}`,
+		`{"mtp":{"existence":true,"siblings":[` + strings.Repeat(`"0",`, 299) + `"0"]}}`}
 	codes := []int{199, 200, 204, 299, 300, 404, 500}
 	sizes := []int{-1, limit - 1, limit, limit + 1}
 	if g.cfg.Thorough() {
@@ -1437,6 +1500,117 @@ func (g *gen) httpStream() error {
 	// the library's JSON decoder of proofs dereferences a null sibling (go-merkletree-sql
 	// Proof.UnmarshalJSON): recorded separately, see c09-http-json-panic
 	g.httpCase(&HTTPIn{Code: 200, BodyKind: "null-sibling", Core: `{"mtp":{"existence":true,"siblings":[null]}}`, Size: -1, ReadFailAt: -1})
+	return nil
+}
+
+// ---------------------------------------------------------------------------
+// end-to-end stream: ValidateCredentialStatus -> default registry -> IssuerResolver ->
+// stub transport delivering the JSON form of an honest / faulted answer
+
+func (g *gen) e2eCase(in *Input) {
+	h := in.HTTP
+	h.build()
+	ty := verifiable.CredentialStatusType(in.Type)
+	verifiable.RegisterStatusResolver(ty, verifiable.IssuerResolver{})
+	defer verifiable.DeleteStatusResolver(ty)
+	old := http.DefaultClient.Transport
+	http.DefaultClient.Transport = stubRT{in: h}
+	defer func() { http.DefaultClient.Transport = old }()
+	cls, msg := clsPanic, ""
+	func() {
+		defer func() {
+			if r := recover(); r != nil {
+				msg = fmt.Sprint(r)
+			}
+		}()
+		_, err := verifiable.ValidateCredentialStatus(context.Background(),
+			verifiable.CredentialStatus{ID: "http://status.test/e2e", Type: ty, RevocationNonce: in.Nonce})
+		cls = classify(err)
+		if err != nil {
+			msg = err.Error()
+		}
+	}()
+	pa, pok, ppanic := parseBody(h.Body)
+	if ppanic {
+		g.rep.Count("e2e:json-decoder-panic(D12):" + in.Fault)
+		return
+	}
+	t := newTable()
+	exp := clsErr
+	if h.Code >= 200 && h.Code < 300 && len(h.Body) < verifiable.VerifLimitReaderBytes && pok {
+		exp, _, _ = reference(t, pa, in.Nonce)
+	}
+	switch {
+	case cls == clsPanic:
+		g.rep.Fail("c09-panic", "ValidateCredentialStatus (direct HTTP resolver) panicked: "+msg, in)
+	case cls != exp:
+		g.rep.Fail("c09-e2e-mismatch", fmt.Sprintf("result class %s, the property demands %s (%s)", clsName(cls), clsName(exp), msg), in)
+	}
+	if in.Tree != nil && (cls == clsOK || cls == clsRevoked) && pok {
+		if ti, err := g.tree(*in.Tree); err == nil {
+			if st, _, bad := refHex(pa.State); pa.State != nil && !bad && st.String() == in.Honest {
+				if member := ti.set[in.Nonce]; (cls == clsOK) == member {
+					g.rep.Fail("c09-accepted-revoked-nonce", "end to end: "+clsName(cls)+" although membership of the nonce in the real tree is "+fmt.Sprint(member), in)
+				}
+			}
+		}
+	}
+	g.rep.Count(fmt.Sprintf("e2e:%s:%s", faultFamily(in.Fault), clsName(cls)))
+	canon, _ := json.Marshal([]any{"e2e", in.Tree, in.Nonce, in.Fault, h.Code, h.Size})
+	g.rep.Distinct(string(canon))
+	parsed := "None"
+	if pok {
+		parsed = "(Some " + pa.coq() + ")"
+	}
+	coq := fmt.Sprintf("%s %s %s %s %s %s %d", t.coq(), g.str(in.Type), coqgen.Limbs(new(big.Int).SetUint64(in.Nonce)),
+		coqgen.Limbs(big.NewInt(int64(h.Code))), coqgen.Limbs(big.NewInt(int64(len(h.Body)))), parsed, cls)
+	g.addCase(in, "CE2E %d "+coq)
+}
+
+func (g *gen) e2eStream() error {
+	limit := verifiable.VerifLimitReaderBytes
+	for _, n := range []int{0, 6, g.cfg.Pick(60, 300)} {
+		spec := TreeSpec{Seed: g.rng.Int63(), N: n, Style: "clustered"}
+		ti, err := g.tree(spec)
+		if err != nil {
+			return err
+		}
+		ctr, ror := g.randField(), g.randField()
+		var qs []uint64
+		if len(ti.lst) > 0 {
+			m := ti.lst[g.rng.Intn(len(ti.lst))]
+			qs = append(qs, m, m^(1<<uint(3+g.rng.Intn(30))))
+		}
+		qs = append(qs, g.rng.Uint64())
+		for _, nonce := range qs {
+			h, st, err := honestAnswer(ti, ctr, ror, g.rng.Intn(2) == 0, nonce)
+			if err != nil {
+				return err
+			}
+			all := append([]fault{{name: "", ans: h, nonce: nonce}}, g.faults(h, nonce, ti, 1, false)...)
+			for i, f := range all {
+				body := f.ans.json()
+				code, size, pad := 200, -1, "space"
+				if i%9 == 1 {
+					code = []int{199, 204, 299, 300, 404, 500}[g.rng.Intn(6)]
+				}
+				if i%11 == 2 {
+					size = []int{limit, limit - 1, limit + 1}[(i/11)%3]
+				}
+				if f.name == "" {
+					// the honest answer also at the three boundary sizes
+					for _, sz := range []int{limit - 1, limit, limit + 1} {
+						g.e2eCase(&Input{Kind: "e2e", Type: "x-test", Nonce: f.nonce, Tree: &spec, ProofNonce: nonce, Honest: st.String(),
+							HTTP: &HTTPIn{Code: 200, BodyKind: "status", Core: string(body), Size: sz, Pad: pad, ReadFailAt: -1}})
+					}
+				}
+				in := &Input{Kind: "e2e", Type: statusTypes[g.rng.Intn(len(statusTypes))], Nonce: f.nonce, Fault: f.name,
+					Tree: &spec, ProofNonce: nonce, Honest: st.String(),
+					HTTP: &HTTPIn{Code: code, BodyKind: "status", Core: string(body), Size: size, Pad: pad, ReadFailAt: -1}}
+				g.e2eCase(in)
+			}
+		}
+	}
 	return nil
 }
 
@@ -1709,6 +1883,9 @@ func Run(cfg *common.Config) (*common.Report, error) {
 	if err := g.httpStream(); err != nil {
 		return nil, err
 	}
+	if err := g.e2eStream(); err != nil {
+		return nil, err
+	}
 	g.coerceStream()
 	g.hexStream()
 	// a few real cases from the other streams
@@ -1744,6 +1921,11 @@ func replay(cfg *common.Config, g *gen) (*common.Report, error) {
 			return nil, errors.New("replay: http case without http input")
 		}
 		g.httpCase(in.HTTP)
+	case "e2e":
+		if in.HTTP == nil {
+			return nil, errors.New("replay: e2e case without http input")
+		}
+		g.e2eCase(&in)
 	case "coerce":
 		g.coerceCase(in.Coerce)
 	case "hex":
